@@ -289,4 +289,118 @@ theorem kalmanRun_sigma_indep {α : Type} [Zero α] [Add α] [Sub α] [Mul α]
           exact ih ys' s1 s2 (by simpa using hl) hu
 
 end
+/-! ### histories on one instance -/
+
+section history
+variable {α : Type} [Zero α] [Add α] [Sub α] [Mul α]
+
+/-- `stationary_values` is not one of the state-changing calls -/
+def KOp.isStat : KOp α → Bool
+  | .stat _ => true
+  | _ => false
+
+/-- a `stat` call leaves `(x_hat, Sigma)` untouched -/
+theorem objStep_stat_state (inv : M α → Option (M α)) (A C G H : M α) (o o1 : KObj α) (Sig : M α)
+    (h : objStep inv A C G H o (.stat Sig) = some o1) : o1.st = o.st := by
+  simp only [objStep] at h
+  cases hK : stationaryGain inv A G H Sig with
+  | none => rw [hK] at h; cases h
+  | some K => rw [hK] at h; simp only [Option.map_some, Option.some.injEq] at h; rw [← h]
+
+/-- every other call computes the new `(x_hat, Sigma)` from `(model, x_hat, Sigma, argument)` only:
+    two instances with the same state and ANY cache contents move to the same state, and keep
+    their caches -/
+theorem objStep_state_indep (inv : M α → Option (M α)) (A C G H : M α) (o o' : KObj α) (op : KOp α)
+    (hop : op.isStat = false) (h : o.st = o'.st) :
+    (objStep inv A C G H o op).map (·.st) = (objStep inv A C G H o' op).map (·.st) ∧
+    (∀ o1, objStep inv A C G H o op = some o1 → o1.sigInf = o.sigInf ∧ o1.kInf = o.kInf) := by
+  cases op with
+  | stat Sig => simp [KOp.isStat] at hop
+  | setState x S => exact ⟨rfl, fun o1 h1 => by simp only [objStep, Option.some.injEq] at h1; rw [← h1]; exact ⟨rfl, rfl⟩⟩
+  | f2f => exact ⟨by simp [objStep, h], fun o1 h1 => by simp only [objStep, Option.some.injEq] at h1; rw [← h1]; exact ⟨rfl, rfl⟩⟩
+  | p2f y =>
+    refine ⟨by simp only [objStep, h]; cases priorToFiltered inv G H o'.st y <;> rfl, fun o1 h1 => ?_⟩
+    simp only [objStep] at h1
+    cases hp : priorToFiltered inv G H o.st y with
+    | none => rw [hp] at h1; cases h1
+    | some s => rw [hp] at h1; simp only [Option.map_some, Option.some.injEq] at h1; rw [← h1]; exact ⟨rfl, rfl⟩
+  | update y =>
+    refine ⟨by simp only [objStep, h]; cases update inv A C G H o'.st y <;> rfl, fun o1 h1 => ?_⟩
+    simp only [objStep] at h1
+    cases hp : update inv A C G H o.st y with
+    | none => rw [hp] at h1; cases h1
+    | some s => rw [hp] at h1; simp only [Option.map_some, Option.some.injEq] at h1; rw [← h1]; exact ⟨rfl, rfl⟩
+
+/-- a history without `stat` calls: the resulting state does not depend on the cache -/
+theorem objRun_state_indep (inv : M α → Option (M α)) (A C G H : M α) :
+    ∀ (ops : List (KOp α)) (o o' : KObj α), (∀ op ∈ ops, op.isStat = false) → o.st = o'.st →
+      (objRun inv A C G H o ops).map (·.st) = (objRun inv A C G H o' ops).map (·.st) := by
+  intro ops
+  induction ops with
+  | nil => intro o o' _ h; simp [objRun, h]
+  | cons op ops ih =>
+    intro o o' hops h
+    have hst := (objStep_state_indep inv A C G H o o' op (hops op List.mem_cons_self) h).1
+    unfold objRun
+    cases h1 : objStep inv A C G H o op with
+    | none =>
+      rw [h1] at hst
+      cases h2 : objStep inv A C G H o' op with
+      | none => rfl
+      | some _ => rw [h2] at hst; simp at hst
+    | some o1 =>
+      rw [h1] at hst
+      cases h2 : objStep inv A C G H o' op with
+      | none => rw [h2] at hst; simp at hst
+      | some o2 =>
+        rw [h2] at hst
+        simp only [Option.map_some, Option.some.injEq] at hst
+        exact ih o1 o2 (fun op' h' => hops op' (List.mem_cons_of_mem _ h')) hst
+
+/-- successful `stat` calls can be deleted from a history without changing the final state -/
+theorem objRun_drop_stat (inv : M α → Option (M α)) (A C G H : M α) :
+    ∀ (ops : List (KOp α)) (o oT : KObj α), objRun inv A C G H o ops = some oT →
+      (objRun inv A C G H o (ops.filter fun op => !op.isStat)).map (·.st) = some oT.st := by
+  intro ops
+  induction ops with
+  | nil => intro o oT h; simp only [objRun, Option.some.injEq] at h; simp [objRun, h]
+  | cons op ops ih =>
+    intro o oT h
+    unfold objRun at h
+    cases h1 : objStep inv A C G H o op with
+    | none => rw [h1] at h; cases h
+    | some o1 =>
+      rw [h1] at h
+      have hrec := ih o1 oT h
+      cases hs : op.isStat with
+      | true =>
+        have hop : ∃ Sig, op = .stat Sig := by
+          cases op with
+          | stat Sig => exact ⟨Sig, rfl⟩
+          | _ => simp [KOp.isStat] at hs
+        obtain ⟨Sig, rfl⟩ := hop
+        have hst := objStep_stat_state inv A C G H o o1 Sig h1
+        rw [List.filter_cons_of_neg (by simp [hs])]
+        rw [← hrec]
+        exact objRun_state_indep inv A C G H _ o o1
+          (fun op' h' => by have := (List.mem_filter.mp h').2; simpa using this) hst.symm
+      | false =>
+        rw [List.filter_cons_of_pos (by simp [hs])]
+        unfold objRun
+        rw [h1]
+        exact hrec
+
+/-- a history of `update` calls is `kalmanRun` on the record -/
+theorem objRun_updates (inv : M α → Option (M α)) (A C G H : M α) (ys : List (M α)) (o : KObj α) :
+    (objRun inv A C G H o (ys.map KOp.update)).map (·.st) = kalmanRun inv A C G H o.st ys := by
+  induction ys generalizing o with
+  | nil => simp [objRun, kalmanRun]
+  | cons y ys ih =>
+    simp only [List.map_cons, objRun, kalmanRun, objStep]
+    cases update inv A C G H o.st y with
+    | none => rfl
+    | some s => exact ih _
+
+end history
+
 end QE.C12
